@@ -500,10 +500,12 @@ pub fn one_container(c: &BorshSchemaContainer, out: &mut Sink) {
         Ok(Ok(c2)) => c2,
         Ok(Err(e)) => {
             out.case(&case, &show_err(&e));
+            out.oracle("C17", false, &case, &format!("a container the crate serialized cannot be read back: {}", show_err(&e)));
             return;
         }
         Err(_) => {
             out.case(&case, "panic");
+            out.oracle("C17", false, &case, "reading back a serialized container panicked");
             return;
         }
     };
